@@ -230,7 +230,84 @@ def build_object(param, case):
     if case['level'] == 'class':
         return cls, cls, names
     vals = {n: dec_val(v) for n, v in zip(names, case['values'])}
-    return cls, cls(**vals), names
+    obj = cls(**vals)
+    # per-instance edits of Parameter attributes, then values that may be valid only under the edit
+    for n, slot, v in case.get('edits') or []:
+        if slot == 'bounds':
+            v = None if v is None else tuple(None if x is None else dec_val(x) for x in v)
+        elif slot == 'inclusive_bounds':
+            v = tuple(v)
+        setattr(obj.param[n], slot, v)
+    for n, v in case.get('final') or []:
+        setattr(obj, n, dec_val(v))
+    return cls, obj, names
+
+
+def edited_params(case):
+    """the declarations as the instance's own Parameter objects read after `edits`"""
+    ps = [dict(d) for d in case['params']]
+    for n, slot, v in case.get('edits') or []:
+        for d in ps:
+            if d['name'] == n:
+                if slot == 'bounds':
+                    d['bounds'] = v
+                elif slot == 'inclusive_bounds':
+                    d['inclusive'] = list(v)
+                elif slot == 'allow_None':
+                    d['allow_None'] = v
+    return ps
+
+
+def gen_edits(rng, param, case):
+    """instance-level case -> the same case with per-instance edits and final values valid under them"""
+    if case['level'] != 'instance':
+        return case
+    edits, final = [], []
+    for d, v0 in zip(case['params'][1:], case['values'][1:]):
+        if rng.random() < 0.5:
+            continue
+        t = d['type']
+        d2 = dict(d)
+        kind = rng.choice(['bounds', 'inclusive', 'none']) if t in ('Integer', 'Number', 'Range') else 'none'
+        if kind == 'bounds':
+            integer = t == 'Integer'
+            lo, hi = rng.choice([(-100, 100), (None, 1000), (-7, None), (0.5, 99.5), (None, None)])
+            nb = None if (lo is None and hi is None and rng.random() < 0.5) else [None if lo is None else enc_val(lo), None if hi is None else enc_val(hi)]
+            d2['bounds'] = nb
+            edits.append([d['name'], 'bounds', nb])
+            c = _in_bounds_candidates(rng, nb, integer)
+            cands = [(x, y) for x, y in zip(c, c[1:])] if t == 'Range' else c
+        elif kind == 'inclusive':
+            inc = [True, True]
+            d2['inclusive'] = inc
+            edits.append([d['name'], 'inclusive_bounds', inc])
+            b = d.get('bounds')
+            pts = [dec_val(x) for x in (b or []) if x is not None]
+            pts = [x for x in pts if not (isinstance(x, float) and (math.isinf(x) or math.isnan(x)))]
+            if t == 'Integer':
+                pts = [int(x) for x in pts if float(x) == int(x)]
+            cands = [(x, x) for x in pts] if t == 'Range' else pts
+        else:
+            if t in ('Selector', 'ListSelector') or d.get('allow_None') is True:
+                continue
+            d2['allow_None'] = True
+            edits.append([d['name'], 'allow_None', True])
+            cands = [None]
+        try:
+            p = build_param(param, dict(d2, default=d.get('default')))
+        except Exception:
+            edits.pop()
+            continue
+        for v in cands:
+            try:
+                p._validate(v)
+                final.append([d['name'], enc_val(v)])
+                break
+            except Exception:
+                continue
+    if not edits:
+        return case
+    return dict(case, edits=edits, final=final)
 
 
 def name_param():
@@ -568,6 +645,20 @@ def value_of(case, name):
 
 
 def shrink_case(case):
+    for c in _shrink_case(case):
+        if case.get('edits') or case.get('final'):
+            names = {d['name'] for d in c['params']}
+            c = dict(c, edits=[e for e in c.get('edits') or [] if e[0] in names],
+                     final=[f for f in c.get('final') or [] if f[0] in names])
+        yield c
+    for k, e in enumerate(case.get('edits') or []):
+        # drop one edit together with the final value of that parameter
+        rest = case['edits'][:k] + case['edits'][k + 1:]
+        keep = {x[0] for x in rest}
+        yield dict(case, edits=rest, final=[f for f in case.get('final') or [] if f[0] in keep])
+
+
+def _shrink_case(case):
     ps, vals = case['params'], case['values']
     lvl = case['level']
     n = len(ps)
